@@ -69,7 +69,7 @@ impl Prop for AddSub {
             8 => Op::DtTime { tns: gen::day_ns(u)? as u64, sub, assign: u.coin(1, 3)? },
             _ => Op::DateDur { secs: dur_secs(u)?, nanos: u.int_in_range(0..=999_999_999u32)?, sub, assign: u.coin(1, 3)? },
         };
-        let mut a = gen::inst(u, 2)?;
+        let mut a = gen::inst(u, 1)?;
         // edge targeting: place the receiver so that the target lands next to a range end
         if u.coin(1, 4)? {
             let amount: i128 = match &op {
@@ -82,8 +82,8 @@ impl Prop for AddSub {
             let slack = u.range_i64(-2 * 86_400_000_000_000, 2 * 86_400_000_000_000)? as i128;
             let slack = if u.coin(1, 3)? { slack.signum() * (slack.abs() % 3) } else { slack };
             let start = if sub { tl::MIN_INSTANT + amount + slack } else { tl::MAX_INSTANT - amount + slack };
-            let lo = (cal::MIN_DAY + 2) as i128 * tl::DAY_NS;
-            let hi = (cal::MAX_DAY - 2) as i128 * tl::DAY_NS + tl::DAY_NS - 1;
+            let lo = (cal::MIN_DAY + 1) as i128 * tl::DAY_NS;
+            let hi = (cal::MAX_DAY - 1) as i128 * tl::DAY_NS + tl::DAY_NS - 1;
             a = Inst::from_i(start.clamp(lo, hi));
         }
         let mut off = gen::offset(u)?;
@@ -121,8 +121,8 @@ impl Prop for AddSub {
         if !c.a.valid() || c.off.abs() > 86_399 {
             return Verdict::Skip("malformed case");
         }
-        if c.off != 0 && (c.a.day < cal::MIN_DAY + 2 || c.a.day > cal::MAX_DAY - 2) {
-            return Verdict::Skip("offset-carrying receiver within 2 days of a range end");
+        if c.off != 0 && (c.a.day < cal::MIN_DAY + 1 || c.a.day > cal::MAX_DAY - 1) {
+            return Verdict::Skip("offset-carrying receiver on an outermost day of the range");
         }
         if c.a.day <= cal::MIN_DAY + 1 || c.a.day >= cal::MAX_DAY - 1 {
             cx.nt("receiver_on_an_outermost_day");
